@@ -295,3 +295,44 @@ func VH_C06_X1_kill_hint_splits() {
 	vrt.Assume(done())
 	cm.recoverAndCheck(s, snap, durable, true, "", false)
 }
+
+// C07-X2b: in-place compaction that shifts live records to lower offsets inside the same file
+// (a dead record first, live ones after it), killed at every control point, with a tree dump
+// on disk when the pass starts (store reopened before GC) or not.
+func VH_C07_X2_kill_inplace_shift() {
+	s := newScen(768, false, "ka", "kb", "kc", "kd")
+	s.setS("ka") // file0: ka (dead after the overwrite below), kb, kc
+	s.setS("kb")
+	s.setS("kc")
+	s.setS("ka") // file1
+	s.setS("kd")
+	s.setS("kd") // file1 full
+	s.setS("kd") // file2 = head
+	s.flush()
+	if vrt.Bool("reopen-first") {
+		s.reopen(vrt.Choice("rm0", 2) * 7) // a tree dump exists when the pass starts
+	}
+	point := gcCrashPoints[vrt.Choice("point", len(gcCrashPoints))]
+	occ := vrt.Choice("occurrence", 3)
+	var snap string
+	done := atPoint(point, occ, func() { snap = vrt.SnapshotDir(s.dir) })
+	r := [][2]int{{0, 0}, {0, 1}}[vrt.Choice("range", 2)]
+	s.gc(r[0], r[1], vrt.Bool("merge"))
+	vrt.Assume(done())
+	stale := false
+	dumps, _ := filepath.Glob(snap + "/*.idx.hash")
+	for c := 0; c <= 3 && len(dumps) == 0; c++ {
+		recs, _ := scanFile(genDataPath(snap, c))
+		for i := range recs {
+			for j := i + 1; j < len(recs); j++ {
+				if recs[i].key == recs[j].key && abs32(recs[j].ver) < abs32(recs[i].ver) {
+					stale = true
+				}
+			}
+		}
+	}
+	Conf.Home = snap
+	s.open()
+	s.checkAllKnown("after-kill-and-restart", "F21", stale)
+	s.st.Close()
+}
